@@ -149,3 +149,29 @@ for cls in ('Reaction',):
 # ---- shared helpers behind every reaction getter: condition routing, the string constructor, the shared reference object ----
 from contracts import helpers
 helpers.install(P, 'kwargs', 'reaction_parser', 'references')
+
+# ---- states of many species evaluated over temperature arrays (declared bounded: run natively on samples; never counted as proved) --
+def real_species(name):
+    return New('pmutt.empirical.nasa:Nasa', name=Const(name), T_low=Const(50.), T_mid=Const(1000.), T_high=Const(6000.),
+               a_low=RealVec(7, -5., 5.), a_high=RealVec(7, -5., 5.), phase=Const('S'), elements=Const({'H': 1}))
+
+
+def big_reaction(nr, npd):
+    return New(RX + 'Reaction', reactants=ListOf([real_species('R%d' % i) for i in range(nr)]), reactants_stoich=ListOf([NU() for _ in range(nr)]),
+               products=ListOf([real_species('P%d' % i) for i in range(npd)]), products_stoich=ListOf([NU() for _ in range(npd)]))
+
+
+for nr, npd in ((4, 2), (6, 5), (1, 4)):
+    for q in ('HoRT', 'SoR', 'GoRT', 'CpoR'):
+        contract(RX + 'Reaction.get_delta_' + q, P, label='many-species[%dR,%dP],temperature-array' % (nr, npd),
+                 shapes=dict(n=[1, 2, 5, 40]), native_only=True,
+                 args=lambda n, nr=nr, npd=npd: dict(self=big_reaction(nr, npd), T=RealVec(n, 100., 3000.)),
+                 requires=['all(T[i] > 0 for i in range(len(T)))'],
+                 ensures=[('hess-law-at-every-temperature',
+                           'all(at(result, i) == sum(nu * s.get_%s(T=T[i]) for s, nu in zip(self.products, self.products_stoich))'
+                           ' - sum(nu * s.get_%s(T=T[i]) for s, nu in zip(self.reactants, self.reactants_stoich)) for i in range(len(T)))' % (q, q)),
+                          ('reversal', 'all(at(self.get_delta_%s(T=T, rev=True), i) == -at(result, i) for i in range(len(T)))' % q)])
+    contract(RX + 'Reaction.get_Keq', P, label='many-species[%dR,%dP],temperature-array' % (nr, npd), shapes=dict(n=[1, 5, 40]), native_only=True,
+             args=lambda n, nr=nr, npd=npd: dict(self=big_reaction(nr, npd), T=RealVec(n, 300., 3000.)),
+             requires=['all(T[i] > 0 for i in range(len(T)))'],
+             ensures=[('K=exp(-dG/RT)', 'all(at(result, i) == exp(-at(self.get_delta_GoRT(T=T), i)) for i in range(len(T)))')])
